@@ -113,6 +113,136 @@ def bind_roles(program, func, call, bound_args):
     return roles
 
 
+def _env_status_write(stmt, env_expr):
+    '''Letter written by `env.set_x(task)` / `env.set_status(task, X)`.'''
+    if not (isinstance(stmt, ast.Expr) and isinstance(stmt.value, ast.Call)):
+        return None
+    call = stmt.value
+    recv = receiver(call)
+    if recv is None or dotted(recv) != env_expr:
+        return None
+    cname = call_name(call) or ''
+    if cname.startswith('set_') and cname[4:].upper() in LETTER:
+        return cname[4:].upper()
+    if cname == 'set_status' and len(call.args) == 2:
+        return enum_member(call.args[1], 'TaskStatus')
+    return None
+
+
+def _master_prelude(program, func, call, roles, env_expr, bound):
+    '''Status transitions written by the master loop itself BEFORE it calls
+    the decision function (`if <cond>: env.set_skipped(task); continue`) are
+    rows of the decision table too.  Returns (synthetic FuncInfo whose body
+    is those statements followed by `return <decision>(...)`, {local set
+    name: statuses of the tasks it holds}) or None when the loop writes no
+    status before the decision.'''
+    import copy
+    from ..loader import FuncInfo
+    parents = enclosing_chain(func.node)
+    loop = lexically_inside(parents, call,
+                            lambda n: isinstance(n, (ast.For, ast.While)))
+    if loop is None:
+        return None
+    cur = call
+    while parents.get(id(cur)) is not loop:
+        cur = parents.get(id(cur))
+        if cur is None:
+            return None
+    idx = loop.body.index(cur)
+    task_var = [roles[i][1] for i in roles if roles[i][0] == 'task']
+    task_var = task_var[0] if task_var else None
+
+    def writes_in(stmts):
+        return [s for st in stmts for s in ast.walk(st)
+                if isinstance(s, ast.Expr) and
+                _env_status_write(s, env_expr)]
+
+    pre = [s for s in loop.body[:idx] if writes_in([s])]
+    if not pre:
+        return None
+
+    def rebuild(stmts):
+        out, last = [], None
+        for stmt in stmts:
+            if _env_status_write(stmt, env_expr):
+                last = _env_status_write(stmt, env_expr)
+                out.append(copy.deepcopy(stmt))
+            elif isinstance(stmt, ast.If):
+                new = ast.If(test=copy.deepcopy(stmt.test),
+                             body=rebuild(stmt.body) or [ast.Pass()],
+                             orelse=rebuild(stmt.orelse))
+                out.append(ast.copy_location(new, stmt))
+            elif isinstance(stmt, ast.Continue):
+                ret = ast.Return(value=ast.parse(
+                    f'TaskStatus.{last}' if last else 'None',
+                    mode='eval').body)
+                out.append(ast.copy_location(ret, stmt))
+            elif isinstance(stmt, (ast.Return, ast.Raise, ast.Break)):
+                out.append(copy.deepcopy(stmt))
+            # counters, logging, bookkeeping of local sets: no status effect
+        return out
+
+    body = rebuild(pre)
+    partial_call = call.args[0] if call.args else None
+    if not (isinstance(partial_call, ast.Call) and partial_call.args):
+        return None
+    final = ast.Return(value=ast.Call(
+        func=copy.deepcopy(partial_call.args[0]),
+        args=[copy.deepcopy(a) for a in bound] + [
+            ast.parse(env_expr, mode='eval').body], keywords=[]))
+    ast.copy_location(final, cur)
+    node = ast.FunctionDef(
+        name=func.node.name,
+        args=copy.deepcopy(func.node.args), body=body + [final],
+        decorator_list=[], returns=None, type_comment=None, type_params=[])
+    ast.copy_location(node, func.node)
+    ast.fix_missing_locations(node)
+    synth = FuncInfo(node, func.module, func.cls, func.parent, func.qual)
+    # local sets that only receive the loop task right after a status write
+    # of that task (or under `<decision> == TaskStatus.X`)
+    sets = {}
+    decision_var = None
+    assign = lexically_inside(parents, call,
+                              lambda n: isinstance(n, ast.Assign))
+    if assign is not None and isinstance(assign.targets[0], ast.Name):
+        decision_var = assign.targets[0].id
+    for node_ in ast.walk(func.node):
+        if not (isinstance(node_, ast.Call) and call_name(node_) == 'add'
+                and isinstance(receiver(node_), ast.Name) and
+                len(node_.args) == 1):
+            continue
+        sname = receiver(node_).id
+        status = None
+        if txt(node_.args[0]) == task_var:
+            stmt = node_
+            while not isinstance(parents.get(id(stmt)), (
+                    ast.If, ast.For, ast.While, ast.FunctionDef)):
+                stmt = parents.get(id(stmt))
+            par = parents.get(id(stmt))
+            block = par.body if any(stmt is s for s in par.body) else \
+                getattr(par, 'orelse', [])
+            before = block[:[i for i, s in enumerate(block)
+                             if s is stmt][0]] if any(
+                                 stmt is s for s in block) else []
+            wr = [_env_status_write(s, env_expr) for s in before
+                  if _env_status_write(s, env_expr) and
+                  txt(s.value.args[0]) == task_var]
+            if wr:
+                status = wr[-1]
+            elif isinstance(par, ast.If) and any(stmt is s
+                                                 for s in par.body) and \
+                    isinstance(par.test, ast.Compare) and \
+                    txt(par.test.left) == decision_var and isinstance(
+                        par.test.ops[0], (ast.Eq, ast.Is)):
+                status = enum_member(par.test.comparators[0], 'TaskStatus')
+        if status in LETTER:
+            sets.setdefault(sname, set()).add(LETTER[status])
+        else:
+            sets[sname] = None
+    sets = {k: frozenset(v) for k, v in sets.items() if v}
+    return synth, sets
+
+
 def decision_table(ctx, rule_prefix='REL'):
     '''Computes the table; returns (rows, info) and records stats.'''
     program = ctx.program
@@ -140,7 +270,19 @@ def decision_table(ctx, rule_prefix='REL'):
                    params[-1])
     interp = DecisionInterp(program, members, default,
                             max_depth=3 if ctx.tier == 'quick' else 6)
-    interp.run_function(decide, froles, State(members))
+    master = _master_prelude(program, func, call, roles, env_expr, bound)
+    if master is None:
+        interp.run_function(decide, froles, State(members))
+    else:
+        synth, sets = master
+        interp.status_sets = sets
+        by_name = {roles[i][0]: txt(bound[i]) for i in roles}
+        interp.run_function(synth, Roles(by_name['task'], by_name['deps'],
+                                         by_name['hard'], env_expr),
+                            State(members))
+        ctx.stats['master_prelude'] = {
+            'statements': len(synth.node.body) - 1,
+            'status_sets': {k: names(v) for k, v in sets.items()}}
     info = {'site': func, 'call': call, 'decide': decide,
             'env_expr': env_expr, 'default': default,
             'functions': sorted(set(interp.functions_seen)),
